@@ -355,6 +355,10 @@ func extIndex(fr *frame, args []value) value {
 
 func (i *interpreter) randVar(kind string, s sym.Sort) *sym.Term {
 	i.noSpec("rand")
+	i.randDraws++
+	if i.cfg.MaxRand > 0 && i.randDraws > i.cfg.MaxRand {
+		panic(pathAbort{kind: abBound, msg: fmt.Sprintf("more than %d random draws", i.cfg.MaxRand)})
+	}
 	// the name encodes the sort: names are reused across paths and must keep their sort
 	pfx := "rndf"
 	if s.K == sym.KBV {
